@@ -50,6 +50,8 @@ func (c *Module) Connect(conn *sqlite.Conn, args []string,
 
 	err = declare(table.SchemaString)
 	if err != nil {
+		// the table was registered by New; do not leave it behind
+		table.Disconnect()
 		return nil, fmt.Errorf("declare: %w", err)
 	}
 
